@@ -125,6 +125,16 @@ def run_case(R: Recorder, case: dict[str, Any], verbose: bool = False) -> None:
             wrapped = timeout(nested)(through)
 
         async def caller() -> None:
+            if case.get("stale_cancel"):
+                # cleanup code of a cancelled task: the CancelledError was caught earlier, uncancel() never called, nothing new is pending
+                me = asyncio.current_task()
+                assert me is not None
+                me.cancel()
+                try:
+                    await asyncio.sleep(0)
+                except asyncio.CancelledError:
+                    pass
+                R.count("callers_with_a_swallowed_cancellation")
             try:
                 if scoped:
                     async with ctx.scope("timeout-scope"):
@@ -370,6 +380,8 @@ def cases(tier: str):  # noqa: ANN201
     for d, outcome, T, c in itertools.product(durations, OUTCOMES, timeouts, cancels):
         for scoped in (False, True):
             yield {"d": d, "outcome": outcome, "T": T, "c": c, "scoped": scoped}
+        if c is None and outcome in ("value", "exception", "selfcancel"):
+            yield {"d": d, "outcome": outcome, "T": T, "c": None, "scoped": False, "stale_cancel": True}
         # cancel requests a few loop iterations after the instant at which the function ends / the deadline fires
         if c is not None and (c == d or c == T):
             for k in range(1, 7):
